@@ -783,6 +783,9 @@ func (f *Frame) callByContract(st *State, call *ast.CallExpr, fn *types.Func, ct
 				// the callee writes elements of the caller's slice: same header, arbitrary new contents
 				so := f.c.sorts.SortOf(a.val.Ty)
 				na := f.c.fresh("post_"+a.name+"_arr", fmt.Sprintf("(Array Int %s)", f.c.sorts.SortOf(sl.Elem())))
+				// elements of the backing array outside the slice's window are not touched
+				st.assume(fmt.Sprintf("(forall ((j!w Int)) (=> (or (< j!w (%s.off %s)) (>= j!w (+ (%s.off %s) (%s.len %s)))) (= (select %s j!w) (select (%s.arr %s) j!w))))",
+					so, a.val.T, so, a.val.T, so, a.val.T, na, so, a.val.T))
 				post.names[a.name] = Val{T: fmt.Sprintf("(mk_%s %s (%s.off %s) (%s.len %s) (%s.cap %s))", so, na, so, a.val.T, so, a.val.T, so, a.val.T), Ty: a.val.Ty}
 				continue
 			}
